@@ -9,6 +9,8 @@ import (
 	"context"
 	"fmt"
 	"os"
+	"runtime"
+	"runtime/pprof"
 	"sort"
 	"strconv"
 	"strings"
@@ -568,11 +570,7 @@ func run(t *testing.T, h history) (outcome string, viol []finding, states map[st
 		}
 		defer func() {
 			for _, m := range w.members {
-				if m.alive {
-					m.p.Stop()
-				} else {
-					m.p.C.Shutdown(ctx)
-				}
+				m.p.Stop() // also for members shut down earlier: closes their DHT and context
 			}
 			for _, hh := range hosts {
 				hh.Close()
@@ -668,6 +666,20 @@ func TestHistories(t *testing.T) {
 		}
 		outcome, viol, states, trans := run(t, h)
 		done++
+		if os.Getenv("VERIF_MEMTRACE") != "" && done%10 == 0 {
+			var ms runtime.MemStats
+			runtime.GC()
+			runtime.ReadMemStats(&ms)
+			if done == 30 && shard == 3 {
+				f, _ := os.Create("/var/tmp/c17-gor.txt")
+				pprof.Lookup("goroutine").WriteTo(f, 1)
+				f.Close()
+				f, _ = os.Create("/var/tmp/c17-heap.pb")
+				pprof.Lookup("heap").WriteTo(f, 0)
+				f.Close()
+			}
+			fmt.Printf("E2 MEMTRACE shard %d done=%d goroutines=%d heap=%dMB sys=%dMB\n", shard, done, runtime.NumGoroutine(), ms.HeapAlloc>>20, ms.Sys>>20)
+		}
 		real := 0
 		for _, v := range viol {
 			if !strings.HasPrefix(v.key, "info:") {
